@@ -16,9 +16,13 @@ NOT_PROVED = []
 ASSUMPTIONS = ['right boxes / wedges / prisms, convex ARB with planar facets (MCNP admissibility)']
 
 
+MODELLED = ['rpp', 'box', 'sph', 'rcc', 'rhp15', 'wed', 'trc']
+
+
 def plan(tier):
     q = tier == 'quick'
-    return [('probe', 330 if q else 6000, {}), ('mixed', 80 if q else 1500, {}), ('filled', 100 if q else 2000, {})]
+    return [('probe', 330 if q else 6000, {}), ('mixed', 80 if q else 1500, {}), ('filled', 100 if q else 2000, {}),
+            ('macromodel', 500 if q else 12000, {})]
 
 
 def search_plan(tier, disagreements):
@@ -36,6 +40,15 @@ def run_case(stream, seed, ctx, params):
         from .. import gen_univ as U
         d = U.build_universe_deck(rng, depth=rng.randint(1, 2), macro_p=0.85, tr_p=0.1, fill_tr_p=0.9, trcl_p=0.4)
         return run_deck(ctx, stream, d, [], rng, npts=200)
+    if stream == 'macromodel':
+        from . import c02
+        kind = MODELLED[seed % len(MODELLED)]
+        mn, ps = G.macrobody(rng, [kind])
+        if rng.random() < 0.3:
+            ps = [x + rng.choice([0.0, 0.125, -0.25]) for x in ps]
+        if rng.random() < 0.05:
+            ps = ps[:-1]
+        return c02.compare_card(ctx, 'macromodel', mn, ps, 'macromodel')
     kind = P.MACRO[seed % len(P.MACRO)]
     mn, ps = G.macrobody(rng, [kind])
     nf = G.nfacets(mn, ps)
@@ -48,4 +61,6 @@ def run_case(stream, seed, ctx, params):
     return r
 
 
-replay = replay_deck
+def replay(payload, ctx):
+    from . import c02
+    return c02.replay(payload, ctx)
